@@ -227,6 +227,25 @@ func callMethod(fn reflect.Value, m reflect.Method) string {
 					return fmt.Sprintf("bidirectional echo %q, want %q", got, v)
 				}
 			}
+			// receiving into a message object that is reused: each message replaces what the object held
+			conc := st
+			if conc.Kind() == reflect.Interface {
+				conc = conc.Elem() // RecvMsg is a method of the generated stream type, not of its interface
+			}
+			if rm := conc.MethodByName("RecvMsg"); rm.IsValid() && rm.Type().NumIn() == 1 {
+				reused := reflect.New(rm.Type().In(0).Elem())
+				for _, v := range []string{"z", ""} {
+					if err := errOf(send.Call([]reflect.Value{newMsg(inT, v)})[0]); err != nil {
+						return fmt.Sprintf("Send failed: %v", err)
+					}
+					if err := errOf(rm.Call([]reflect.Value{reused})[0]); err != nil {
+						return fmt.Sprintf("RecvMsg failed: %v", err)
+					}
+					if got := valueOf(reused); got != v && got != "<no Value field>" {
+						return fmt.Sprintf("RecvMsg into a reused message yielded %q, the peer sent %q (fields of the previous message survived)", got, v)
+					}
+				}
+			}
 			st.MethodByName("CloseSend").Call(nil)
 			r := recv.Call(nil)
 			if err := errOf(r[1]); err != io.EOF {
